@@ -181,7 +181,18 @@ func buildGraphic(c Case) ([]byte, error) {
 		enc.SetCReg(0, false, ivg.BlendColor(0xc0, 0x7f, 0x80|u))
 		square(0, k)
 		k++
+		// the palette entry blended with the (different) register of the same number, both ways
+		enc.SetCReg(0, false, ivg.BlendColor(0x55, 0x80|u, 0xc0|u))
+		square(0, k)
+		k++
+		enc.SetCReg(0, false, ivg.BlendColor(0x99, 0xc0|u, 0x80|u))
+		square(0, k)
+		k++
 		enc.SetCSel(u)
+		square(0, k)
+		k++
+		// ... and the register set back to the palette entry of its own number
+		enc.SetCReg(0, false, ivg.PaletteIndexColor(u))
 		square(0, k)
 		k++
 	}
